@@ -19,7 +19,7 @@ pub enum MK { // mark kinds
 pub struct Mark { pub off: usize, pub len: usize, pub kind: MK }
 #[derive(Debug, Clone)]
 pub struct Deletable { pub off: usize, pub len: usize, pub err: &'static str, pub tok: &'static str, pub at_mark: Option<usize> /* index into `anchors` giving expected position */ }
-pub struct G<'a> { pub u: Src<'a>, pub out: String, pub marks: Vec<Mark>, pub dels: Vec<Deletable>, pub anchors: Vec<usize>, pub depth: usize, pub feats: Vec<&'static str>, pub in_macro: usize, pub str_regions: Vec<(usize, usize)>, pub last_int: bool, pub max_depth: usize, pub open_parens: usize, pub open_calls: usize, pub force_nonword: bool, pub trunc_points: Vec<(usize, usize, usize)> }
+pub struct G<'a> { pub u: Src<'a>, pub out: String, pub marks: Vec<Mark>, pub dels: Vec<Deletable>, pub anchors: Vec<usize>, pub depth: usize, pub feats: Vec<&'static str>, pub in_macro: usize, pub str_regions: Vec<(usize, usize)>, pub last_int: bool, pub max_depth: usize, pub open_parens: usize, pub open_calls: usize, pub open_text: usize, pub force_nonword: bool, pub trunc_points: Vec<(usize, usize, usize, usize)> }
 
 const IDENTS: &[&str] = &["a", "b", "x1", "_v", "abc", "var_2", "tbl", "col", "é1", "mylib", "Z"];
 const MNAMES: &[&str] = &["m", "mymac", "util_1", "_m", "doit", "M2"];
@@ -31,7 +31,7 @@ const OPEN_SYM: &[&str] = &["=", "+", "-", "/", "<", ">", "<=", ">=", "^=", "~="
 const WORDS: &[&str] = &["a", "abc", "x1", "some", "text", "v_1", "é", "data", "q2"];
 
 impl<'a> G<'a> {
-    pub fn new(data: &'a [u8]) -> G<'a> { G { u: Src::new(data), out: String::new(), marks: vec![], dels: vec![], anchors: vec![], depth: 0, feats: vec![], in_macro: 0, str_regions: vec![], last_int: false, max_depth: 0, open_parens: 0, open_calls: 0, force_nonword: false, trunc_points: vec![] } }
+    pub fn new(data: &'a [u8]) -> G<'a> { G { u: Src::new(data), out: String::new(), marks: vec![], dels: vec![], anchors: vec![], depth: 0, feats: vec![], in_macro: 0, str_regions: vec![], last_int: false, max_depth: 0, open_parens: 0, open_calls: 0, open_text: 0, force_nonword: false, trunc_points: vec![] } }
     fn d_inc(&mut self) { self.depth += 1; if self.depth > self.max_depth { self.max_depth = self.depth; } }
     fn p(&mut self, s: &str) { self.out.push_str(s); }
     // a macro keyword in a random letter case (keywords are case-insensitive)
@@ -51,10 +51,10 @@ impl<'a> G<'a> {
         match kind { MK::Delim("LPAREN", _) => self.open_calls += 1, MK::Delim("RPAREN", _) => self.open_calls = self.open_calls.saturating_sub(1), _ => {} }
     }
     // parentheses of a nested group inside argument text (text for the lexer, but counted by its nesting level)
-    fn gopen(&mut self) { self.p("("); self.open_parens += 1; }
-    fn gclose(&mut self) { self.p(")"); self.open_parens = self.open_parens.saturating_sub(1); }
+    fn gopen(&mut self) { self.p("("); self.open_parens += 1; self.open_text += 1; }
+    fn gclose(&mut self) { self.p(")"); self.open_parens = self.open_parens.saturating_sub(1); self.open_text = self.open_text.saturating_sub(1); }
     // a point inside open call parentheses at which the input may be cut: every '(' still open there must get its virtual ')'
-    fn tp(&mut self) { if self.open_parens > 0 { self.trunc_points.push((self.out.len(), self.open_parens, self.open_calls)); } }
+    fn tp(&mut self) { if self.open_parens > 0 { self.trunc_points.push((self.out.len(), self.open_parens, self.open_calls, self.open_text)); } }
     fn anchor(&mut self) -> usize { self.anchors.push(self.out.len()); self.anchors.len() - 1 }
     // insignificant whitespace/comments (hidden)
     fn ows(&mut self) { match self.u.below(9) { 0 | 1 | 2 | 3 => {} 4 => self.mark(" ", MK::HiddenWs), 5 => self.mark("\n", MK::HiddenWs), 6 => self.mark("  \t", MK::HiddenWs), 7 => { self.uws(); } _ => { if self.u.coin(1, 4) { self.mark("/*a*//*b,(*/", MK::HiddenWs); } else if self.u.coin(1, 4) { self.mark("/*a*/ /*b*/\n", MK::HiddenWs); } else { self.mark("/*c,=;)*/", MK::HiddenWs); } self.feat("comment-in-gap"); } } }
